@@ -480,6 +480,20 @@ pub fn c15_families(tier: Tier) -> Vec<Family> {
         p.push(mk(Init::Absent, vec![vec![st], vec![T::Del], vec![T::SetNew]], K, K, keys.clone(), Policy::Random(4000)));
     }
     fams.push(Family { name: "absent-key-store-vs-delete".into(), programs: p, opts: o });
+    // an expired, uncollected item met by several clients at once: collecting it is one removal,
+    // however many of them see it (lazy expiry leaves its bytes accounted on the unchanged tree -
+    // recorded as over-count; under-count is something else)
+    let mut p = vec![];
+    for prog in [
+        vec![vec![T::Get], vec![T::Get]],
+        vec![vec![T::Get], vec![T::Del]],
+        vec![vec![T::Get], vec![T::Append]],
+        vec![vec![T::Get], vec![T::Get], vec![T::Get]],
+        vec![vec![T::Get, T::Get], vec![T::Get]],
+    ] {
+        p.push(mk(Init::Expired, prog, K, K, keys.clone(), Policy::Random(4000)));
+    }
+    fams.push(Family { name: "expired-item-met-concurrently".into(), programs: p, opts: o });
     fams
 }
 
